@@ -116,13 +116,27 @@ where
             Err(e) => return Some(Err(e.offset(self.pos))),
         };
 
+        let payload_offset = FlexVec::<T, L>::OFFSET_SIZE;
+        if payload_offset > data.bytes().len() {
+            // Every slot (the terminating one too) occupies `OFFSET_SIZE` bytes.
+            return Some(Err(Error {
+                kind: ErrorKind::InsufficientSize,
+                pos: self.pos,
+            }));
+        }
+
         if next_offset == 0 {
             return None;
         } else if next_offset == L::max_value().to_usize().unwrap() {
             last = true;
+        } else if next_offset % FlexVec::<T, L>::ALIGN != 0 {
+            // The next slot (and item) would be misaligned.
+            return Some(Err(Error {
+                kind: ErrorKind::BadAlign,
+                pos: self.pos,
+            }));
         }
 
-        let payload_offset = FlexVec::<T, L>::OFFSET_SIZE;
         if payload_offset > next_offset {
             return Some(Err(Error {
                 kind: ErrorKind::InsufficientSize,
@@ -142,12 +156,6 @@ where
             self.pos += next_offset;
             data
         } else {
-            if payload_offset > data.bytes().len() {
-                return Some(Err(Error {
-                    kind: ErrorKind::InsufficientSize,
-                    pos: self.pos,
-                }));
-            }
             data
         };
         let (_, payload) = data.split(payload_offset);
